@@ -5,6 +5,7 @@ import (
 	"context"
 	"errors"
 	"fmt"
+	"net"
 	"os"
 	"path/filepath"
 	"runtime"
@@ -896,6 +897,57 @@ func kvfsCancel(c *Ctx, fmtName, whKind string) {
 	c.Distinct(op)
 }
 
+// kvfsBadSource: a pack whose source path cannot be packed at all — it does not exist, a parent component is a regular
+// file, it runs into a symlink cycle, a component is longer than any name, it is a socket: the pack answers an error
+// (or, for an absent path, whatever it answers) and the warehouse — content-addressed or single-object — holds nothing
+// afterwards, no ware and no staging file. Recipe: "kvfs-badsource <tar|zip>".
+func kvfsBadSource(c *Ctx, fmtName string) {
+	op := "kvfs-badsource " + fmtName
+	c.Begin(op)
+	c.EmitR(op, "skip", "skip")
+	caseCounter++
+	base := filepath.Join(c.Work, fmt.Sprintf("kbs%d", caseCounter))
+	defer rmrf(base)
+	os.MkdirAll(base, 0755)
+	os.WriteFile(filepath.Join(base, "plain"), []byte("x"), 0644)
+	os.Symlink("loop", filepath.Join(base, "loop"))
+	if l, e := net.Listen("unix", filepath.Join(base, "sock")); e == nil {
+		l.(*net.UnixListener).SetUnlinkOnClose(false)
+		l.Close()
+	}
+	fn := funcsFor(fmtName)
+	pf := api.MustParseFilesetPackFilter(losslessPackStr)
+	for _, sp := range []string{"absent", "plain/sub", "loop/x", strings.Repeat("n", 300), "sock", "plain/"} {
+		for _, wk := range []string{"ca", "file"} {
+			wh := filepath.Join(base, "wh-"+wk)
+			rmrf(wh)
+			os.MkdirAll(wh, 0755)
+			id, err, pan := safeCall(func() (api.WareID, error) {
+				return fn.pack(context.Background(), api.PackType(fmtName), filepath.Join(base, sp), pf, whAddr(wk, wh), rio.Monitor{})
+			})
+			r := resTok(id, err, pan)
+			c.H("badsource:" + fmtName + ":" + sp[:min(len(sp), 9)] + ":" + strings.Fields(r)[0])
+			if pan != "" {
+				c.PropFail("kvfs-panic", fmt.Sprintf("pack of the source path %q panicked: %s", sp, pan), op)
+				continue
+			}
+			if err == nil {
+				continue // (a regular file or an absent path may well pack: then the ware is there, and that is fine)
+			}
+			var left []string
+			filepath.Walk(wh, func(p string, info os.FileInfo, e error) error {
+				if e == nil && p != wh && !info.IsDir() {
+					left = append(left, strings.TrimPrefix(p, wh+"/"))
+				}
+				return nil
+			})
+			if len(left) > 0 {
+				c.PropFail("staging-left", fmt.Sprintf("a %s pack of the source path %q failed (%s) and left %v in the %s warehouse", fmtName, sp, catOf(err), left, wk), op)
+			}
+		}
+	}
+}
+
 func kvfsEngine(c *Ctx) {
 	if ls := replayLines(); ls != nil {
 		for _, op := range ls {
@@ -927,6 +979,8 @@ func kvfsEngine(c *Ctx) {
 				k := 0
 				fmt.Sscan(f[2], &k)
 				kvfsFailThen(c, f[1], k)
+			} else if strings.HasPrefix(op, "kvfs-badsource ") {
+				kvfsBadSource(c, strings.Fields(op)[1])
 			} else if strings.HasPrefix(op, "kvfs-shrink ") {
 				f := strings.Fields(op)
 				kvfsShrink(c, f[1], f[2])
@@ -946,6 +1000,8 @@ func kvfsEngine(c *Ctx) {
 		}
 		kvfsCancel(c, fm, []string{"ca", "file"}[c.Intn(2)])
 	}
+	kvfsBadSource(c, "tar")
+	kvfsBadSource(c, "zip")
 	whats := []string{"pack-tar", "pack-zip", "mirror"}
 	for k := 0; k < n; k++ {
 		fsx := c.GenFileset(GenOpts{MaxEntries: 5, Kinds: "ffdL", MaxContent: 500})
